@@ -115,7 +115,7 @@ YAJILIN_COMBINATOR = Grid(OneOf(YajilinClue(), Spaces("..", "a")))
 
 def serialize_yajilin(problem):
     height = len(problem)
-    width = len(problem[0])
+    width = len(problem[0]) if height > 0 else 0
     return serialize_problem_as_url(YAJILIN_COMBINATOR, "yajilin", height, width, problem)
 
 
